@@ -29,6 +29,9 @@ class Stats(object):
         self.wall = 0.0
         self.nontrivial_schedules = 0
         self.rounds = 0
+        self.divergence_retries = 0
+        self.unreproducible = 0
+        self.unconfirmed = 0
 
     def as_dict(self):
         return dict(executions=self.executions, completed=self.completed, cut=self.cut, states=self.states,
@@ -36,13 +39,15 @@ class Stats(object):
                     distinct_outcomes=len(self.outcomes), caps_hit=self.caps,
                     bound_completed=self.bound_completed, sched_outcomes=self.sched_outcomes,
                     nontrivial_schedules=self.nontrivial_schedules, wall_s=round(self.wall, 2),
-                    rounds=self.rounds)
+                    rounds=self.rounds, divergence_retries=self.divergence_retries,
+                    unreproducible_prefixes=self.unreproducible, unconfirmed_violations=self.unconfirmed)
 
 
 class Explorer(object):
     def __init__(self, run_fn, bound=None, use_cache=True, max_execs=None, max_seconds=None, seed=0,
                  stop_on_violation=True, keep_samples=3, visited=None, deviations=False):
         self.deviations = deviations     # bound counts every non-default choice (not only preemptions)
+        self.confirm = True
         self.run_fn = run_fn
         self.bound = bound
         self.use_cache = use_cache
@@ -95,11 +100,24 @@ class Explorer(object):
                 break
             prefix = stack.pop()
             sched, obs = self.run_fn(prefix, self.use_cache, self._cut)
+            tries = 0
+            while sched.outcome == "divergence" and tries < 2:
+                # a replayed prefix did not find the choice it recorded.  Re-run it: a divergence that does not repeat is
+                # a transient of the harness (counted and reported), one that repeats 3 times is a hard harness error
+                tries += 1
+                st.divergence_retries += 1
+                sched, obs = self.run_fn(prefix, self.use_cache, self._cut)
             st.executions += 1
             pts = sched.points
             st.max_points = max(st.max_points, len(pts))
             st.sched_outcomes[sched.outcome] = st.sched_outcomes.get(sched.outcome, 0) + 1
             choices_taken = [p.chosen for p in pts if p.chosen >= 0]
+            if sched.outcome == "divergence":
+                # the prefix (recorded by an earlier execution) could not be replayed, three times in a row: the
+                # execution that recorded it was not reproducible.  No verdict is derived from it; it is reported as
+                # incomplete coverage (caps), never as a property violation.
+                st.unreproducible += 1
+                continue
             if sched.errors:
                 self.violations.append(("HARNESS", "; ".join(sched.errors), choices_taken))
                 if self._must_stop():
@@ -115,7 +133,20 @@ class Explorer(object):
                 if len(self.samples) < self.keep_samples:
                     self.samples.append({"choices": choices_taken, "outcome": sched.outcome,
                                          "observed": repr(ok)[:300]})
-            for sig, text in obs.get("violations", ()):
+            vs = list(obs.get("violations", ()))
+            if vs and self.confirm:
+                # trust a failure only if the same schedule fails the same way twice more
+                want = sorted(v[0] for v in vs)
+                ok = True
+                for _ in range(2):
+                    s2, o2 = self.run_fn(choices_taken, False, None)
+                    if s2.outcome == "divergence" or sorted(v[0] for v in o2.get("violations", ())) != want:
+                        ok = False
+                        break
+                if not ok:
+                    st.unconfirmed += 1
+                    vs = []
+            for sig, text in vs:
                 self.violations.append((sig, text, choices_taken))
             if self._must_stop():
                 break
@@ -142,6 +173,8 @@ class Explorer(object):
         st.states = len(self.visited)
         st.transitions = len(self.edges)
         st.wall += time.time() - t0
+        if (st.unreproducible or st.unconfirmed) and not any(c.startswith("unreproducible") for c in st.caps):
+            st.caps.append("unreproducible_prefixes=%d unconfirmed_violations=%d" % (st.unreproducible, st.unconfirmed))
         if not st.caps and not stack:
             st.bound_completed = "unbounded" if self.bound is None else self.bound
         return st
@@ -161,7 +194,8 @@ def _worker(task):
     return (ex.new_visited, ex.edges, ex.stack, ex.violations, ex.samples,
             dict(executions=st.executions, completed=st.completed, cut=st.cut, max_points=st.max_points,
                  outcomes=st.outcomes, sched_outcomes=st.sched_outcomes,
-                 nontrivial=st.nontrivial_schedules))
+                 nontrivial=st.nontrivial_schedules, divergence_retries=st.divergence_retries,
+                 unreproducible=st.unreproducible, unconfirmed=st.unconfirmed))
 
 
 class ParallelExplorer(object):
@@ -246,6 +280,9 @@ class ParallelExplorer(object):
                 st.cut += d["cut"]
                 st.max_points = max(st.max_points, d["max_points"])
                 st.nontrivial_schedules += d["nontrivial"]
+                st.divergence_retries += d.get("divergence_retries", 0)
+                st.unreproducible += d.get("unreproducible", 0)
+                st.unconfirmed += d.get("unconfirmed", 0)
                 for k, v in d["outcomes"].items():
                     st.outcomes[k] = st.outcomes.get(k, 0) + v
                 for k, v in d["sched_outcomes"].items():
@@ -253,6 +290,8 @@ class ParallelExplorer(object):
         st.states = len(self.visited)
         st.transitions = len(self.edges)
         st.wall = time.time() - t0
+        if st.unreproducible or st.unconfirmed:
+            st.caps.append("unreproducible_prefixes=%d unconfirmed_violations=%d" % (st.unreproducible, st.unconfirmed))
         if not st.caps and not frontier:
             st.bound_completed = "unbounded" if self.bound is None else self.bound
         return st
